@@ -341,6 +341,25 @@ pub fn c04_case(rng: &mut Rng, max_objects: usize) -> String {
                 f.holds("try_mode succeeds", false, "try_mode failed on a convertible map");
             }
         }
+        // the mode's own builder on the UNCONVERTED map, by reference and by value (the conversion is
+        // implicit and must see the mods set afterwards, e.g. mania key mods)
+        if c.src_mode != c.target {
+            f.eq("Mode::Performance::new(&unconverted map)", &run(mode_perf_from_map(c.target, &c.map)), &want);
+            let owned: Performance<'static> = match c.target {
+                0 => Performance::Osu(OsuPerformance::new(c.map.clone())),
+                1 => Performance::Taiko(TaikoPerformance::new(c.map.clone())),
+                2 => Performance::Catch(CatchPerformance::new(c.map.clone())),
+                _ => Performance::Mania(ManiaPerformance::new(c.map.clone())),
+            };
+            f.eq("Mode::Performance::new(unconverted map by value)", &run(owned), &want);
+            let owned: Performance<'static> = match c.target {
+                0 => Performance::Osu(OsuPerformance::from(c.map.clone())),
+                1 => Performance::Taiko(TaikoPerformance::from(c.map.clone())),
+                2 => Performance::Catch(CatchPerformance::from(c.map.clone())),
+                _ => Performance::Mania(ManiaPerformance::from(c.map.clone())),
+            };
+            f.eq("Mode::Performance::from(unconverted map by value)", &run(owned), &want);
+        }
         // generate_state then calculate on the same builder (the builder now holds attributes)
         let mut b = spec.apply(Performance::new(&c.conv).difficulty(d.clone()));
         let _ = b.generate_state();
